@@ -637,7 +637,16 @@ func ruleWidthLimitIsExclusiveOf100(w *World, r *Report, prop, rule string) {
 // the PDR's interface (the handler allocates for any PDR with the CHOOSE flag).
 func ruleTeidReleasedUnderItsMark(w *World, r *Report, prop, rule string) {
 	rel := w.Fn(prop, "pfcpiface.releaseAllocatedTEIDs")
-	n, miss := edgeAlwaysLeadsTo(rel, condReadsField("UPAllocateFteid"), true, callNamed("FreeID"))
+	sites, _ := teidReleaseSites(rel, w.Fn(prop, "pfcpiface.(*FTEIDGenerator).FreeID"))
+	isSite := func(i ssa.Instruction) bool {
+		for _, s := range sites {
+			if s == i {
+				return true
+			}
+		}
+		return false
+	}
+	n, miss := edgeAlwaysLeadsTo(rel, condReadsField("UPAllocateFteid"), true, isSite)
 	pos := w.Pos(rel.Pos())
 	if miss != nil {
 		pos = w.Pos(posNear(miss))
@@ -2305,4 +2314,92 @@ func round6pre(w *World, r *Report) bool {
 		}
 	}
 	return bad
+}
+
+// teidReleaseSites: where releaseAllocatedTEIDs decides that a TEID goes back. Normally the FreeID call. When the
+// function first collects the TEIDs into a local slice (filled only by append) and frees every element of it in
+// a second loop, the decision is taken where a TEID is appended: those appends are the sites, the appended
+// value is the value freed.
+func teidReleaseSites(rel *ssa.Function, free *ssa.Function) (sites []ssa.Instruction, vals []ssa.Value) {
+	for _, c := range callsTo(rel, free) {
+		ins := c.(ssa.Instruction)
+		args := c.Common().Args
+		arg := args[len(args)-1]
+		var base ssa.Value
+		if u, ok := arg.(*ssa.UnOp); ok {
+			if ia, ok := u.X.(*ssa.IndexAddr); ok && (isRangeIndexOf(ia.Index) || isCountingIndexOf(ia.Index)) {
+				base = ia.X
+			}
+		}
+		if base == nil {
+			sites, vals = append(sites, ins), append(vals, arg)
+			continue
+		}
+		// the family of values the local slice goes through
+		fam := map[ssa.Value]bool{}
+		var apps []*ssa.Call
+		okFam := true
+		var walk func(v ssa.Value, d int)
+		walk = func(v ssa.Value, d int) {
+			if v == nil || fam[v] || d > 8 {
+				return
+			}
+			fam[v] = true
+			switch x := v.(type) {
+			case *ssa.Phi:
+				for _, e := range x.Edges {
+					walk(e, d+1)
+				}
+			case *ssa.Call:
+				if calleeName(x) == "builtin.append" && len(x.Call.Args) == 2 {
+					apps = append(apps, x)
+					walk(x.Call.Args[0], d+1)
+				} else {
+					okFam = false
+				}
+			case *ssa.MakeSlice:
+			case *ssa.Const:
+			default:
+				okFam = false
+			}
+		}
+		walk(base, 0)
+		// the freeing loop visits every element: no exit from it other than its header
+		if okFam && len(apps) > 0 && len(loopEarlyExits(rel, loopHeaderOf(rel, ins))) == 0 {
+			for _, a := range apps {
+				// the appended element: the single value stored into the var-args array
+				var elem ssa.Value
+				if sl, ok := a.Call.Args[1].(*ssa.Slice); ok {
+					if al, ok := sl.X.(*ssa.Alloc); ok && al.Referrers() != nil {
+						for _, ref := range *al.Referrers() {
+							if ia, ok := ref.(*ssa.IndexAddr); ok && ia.Referrers() != nil {
+								for _, r2 := range *ia.Referrers() {
+									if st, ok := r2.(*ssa.Store); ok {
+										elem = st.Val
+									}
+								}
+							}
+						}
+					}
+				}
+				sites, vals = append(sites, ssa.Instruction(a)), append(vals, elem)
+			}
+			continue
+		}
+		sites, vals = append(sites, ins), append(vals, arg)
+	}
+	return
+}
+
+// loopHeaderOf: the innermost loop header whose loop contains ins (nil if none).
+func loopHeaderOf(f *ssa.Function, ins ssa.Instruction) *ssa.BasicBlock {
+	var hdr *ssa.BasicBlock
+	for _, h := range f.Blocks {
+		if len(h.Preds) >= 2 && h.Dominates(ins.Block()) && inCycle(h, ins.Block()) {
+			if hdr == nil || hdr.Dominates(h) {
+				hdr = h
+			}
+		}
+	}
+	return hdr
 }
